@@ -283,23 +283,28 @@ def read_env(src, expr, skip_envs=(), tolerance=0, mode=MODE_NON_MATH):
     >>> read_env(buf, TexNamedEnv('foobar'), tolerance=1)  # error tolerance
     TexNamedEnv('foobar', [' tingtang '], [])
     """
+    def read_end(src):
+        """Read `\\end`, optional whitespace and the brace group naming the
+        environment. What follows belongs to the surrounding content."""
+        src.forward(2)  # escape and `end`
+        read_spacer(src)
+        if src.hasNext() and src.peek().category == TC.GroupBegin:
+            return read_arg(src, next(src), tolerance=tolerance, mode=mode)
+
     contents = []
     while src.hasNext():
         if src.peek().category == TC.Escape:
-            # only the name group of a closing `\end` matters here; what
-            # follows it belongs to the surrounding content
-            name, args = make_read_peek(read_command)(
-                src, 1, 0, skip=1, tolerance=tolerance, mode=mode)
+            name, _ = make_read_peek(read_command)(
+                src, 0, 0, skip=1, tolerance=tolerance, mode=mode)
             if name == 'end':
                 break
         contents.append(read_expr(src, skip_envs=skip_envs, tolerance=tolerance, mode=mode))
-    error = not src.hasNext() or not args or args[0].string != expr.name
+    end = make_read_peek(read_end)(src) if src.hasNext() else None
+    error = end is None or end.string != expr.name
     if error and tolerance == 0:
         unclosed_env_handler(src, expr, src.peek((0, 6)))
     elif not error:
-        src.forward(2)  # escape and `end`
-        read_spacer(src)  # whitespace is allowed before the name group
-        read_arg(src, next(src), tolerance=tolerance, mode=mode)  # {name}
+        read_end(src)
     expr.append(*contents)
     return expr
 
